@@ -345,6 +345,81 @@ pub fn set_extend<K: SimK, V: SimV, const C: usize>(s: &mut Set<K, C>, cx: &mut 
     }
 }
 
+/// `Extend<&T>` for `T: Copy`: a set of plain `Copy` keys seeded with the classes of the snapshot is
+/// extended by reference from a scripted source and compared with one-by-one insertion by value.
+pub fn set_extend_ref<K: SimK, V: SimV, const C: usize>(cx: &mut Cx<K, V>, classes: &[u32], src: &SrcCfg, pre: &Snap) {
+    use crate::payload::CKey;
+    let aw = cx.cfg.alloc_window;
+    cx.probe("extend_by_reference");
+    let t0 = cx.tagctr + 1;
+    cx.tagctr += classes.len() as u32 + 1;
+    let seed = |s: &mut Set<CKey, C>| {
+        for e in pre {
+            s.insert(CKey::new(e.kclass, e.ktag));
+        }
+    };
+    let cont = |s: &Set<CKey, C>| {
+        let mut v: Vec<(u32, u32)> = s.iter().map(|k| (k.class, k.tag)).collect();
+        v.sort_unstable();
+        v
+    };
+    let mut slot = crate::world::Slot::new(Set::<CKey, C>::new());
+    observing(|| seed(&mut slot.g.val));
+    let store: Vec<CKey> = classes.iter().enumerate().map(|(i, c)| CKey::new(*c, t0 + i as u32)).collect();
+    let mut items: Vec<Option<&CKey>> = store.iter().map(Some).collect();
+    let mut log = Vec::new();
+    let vis = visible_len(classes.len(), src);
+    let r = {
+        let it = Src { items: &mut items, pos: 0, cfg: src.clone(), gapped: false, cap: C, log: &mut log };
+        let target = &mut slot.g.val;
+        catch_unwind(AssertUnwindSafe(|| win!(aw, target.extend(it))))
+    };
+    crate::alloc::arm(false);
+    if let Err(p) = &r {
+        if is_sim_panic(p) {
+            resume_unwind(r.err().unwrap());
+        }
+    }
+    if !slot.canaries_ok() {
+        violate("canary", "Set::extend(by reference): a guard word next to the set changed".into());
+    }
+    let (len, n) = (slot.g.val.len(), observing(|| slot.g.val.iter().take(C + 4).count()));
+    if len != n || len > C {
+        violate("len-vs-iteration", format!("Set::extend(by reference): len()={len}, iteration yields {n}, capacity {C}"));
+    }
+    if src.hint <= 4 {
+        check_pulls("Set::extend(by reference)", &log, vis, classes.len(), r.is_err());
+    }
+    if !cx.lying && src.hint <= 4 {
+        let (rs, ref_ok) = observing(|| {
+            let mut rs: Set<CKey, C> = Set::new();
+            seed(&mut rs);
+            let res = catch_unwind(AssertUnwindSafe(|| {
+                for k in &store[..vis] {
+                    rs.insert(*k);
+                }
+            }));
+            (rs, res.is_ok())
+        });
+        let (cb, cr) = observing(|| (cont(&slot.g.val), cont(&rs)));
+        match (r.is_ok(), ref_ok) {
+            (true, true) | (false, false) => {
+                if cb != cr {
+                    violate("differs-from-one-by-one", format!("Set::extend(by reference): gives (class, key tag) {cb:?} but inserting the items one by one gives {cr:?}"));
+                }
+            }
+            (false, true) => violate("capacity-misjudged", format!("Set::extend(by reference) panicked although inserting the items one by one fits into capacity {C}")),
+            (true, false) => {
+                violate("capacity-misjudged", format!("Set::extend(by reference) returned although inserting the items one by one overflows capacity {C}"));
+                violate("no-panic-on-overflow", format!("Set::extend(by reference) past capacity {C} returned normally"));
+            }
+        }
+    }
+    if let Err(p) = r {
+        resume_unwind(p);
+    }
+}
+
 /// The smallest class that no entry of the snapshot carries.
 pub fn absent_class(s: &Snap) -> u32 {
     let mut c = 0;
